@@ -208,6 +208,8 @@ func nonNil(t *Term) bool {
 		return t.Aux == "exact" && len(t.Args) > 0
 	case "iface":
 		return nonNil(t.Args[0])
+	case "call":
+		return t.Aux == "fmt.Errorf" || t.Aux == "errors.New"
 	}
 	return false
 }
@@ -309,6 +311,10 @@ type Client interface {
 	// OnBackEdge is called for every path of a loop body that reaches the
 	// back edge, before per-iteration terms are renamed.
 	OnBackEdge(x *Exec, st *State, fr *Frame, cur *Term)
+	// OnLoopLeave is called (final fixpoint round only) for every path that
+	// leaves the loop to a block outside it; fromHeader tells whether the
+	// exit is the loop condition or a break inside the body.
+	OnLoopLeave(x *Exec, st *State, fr *Frame, cur *Term, fromHeader bool)
 }
 
 // Res is the outcome of simulating a function to one of its exits.
@@ -1041,6 +1047,9 @@ func (x *Exec) execLoop(fr *Frame, li *loopInfo, pred *ssa.BasicBlock, st *State
 			lastBacks = backs
 			var res []blockOut
 			for _, e := range exits {
+				if e.kind == outLoopExit {
+					x.C.OnLoopLeave(x, e.st, e.fr, cur, e.from == li.header)
+				}
 				if e.kind == outLoopExit && e.from == li.header {
 					e.st.done[all.key] = true
 					var pl []*Term
